@@ -30,8 +30,8 @@ import (
 func init() { props["C01"] = propC01 }
 
 // ---------------------------------------------------------------------------
-// a short Go re-statement of wrap.Space(s, 67) (go-wrap v1.0.3 `at`), used to
-// predict the shape of the known findings K1B / K1C
+// a short Go re-statement of wrap.Space(s, 67) (go-wrap v1.0.3 `at`), used by the
+// generators to aim at the wrap boundaries
 
 func wrapSpace67(s string) string {
 	if i := strings.IndexByte(s, '\n'); i >= 0 {
@@ -110,10 +110,11 @@ func shapeK1E(tab []gts.Feature, reg registry) bool {
 	return false
 }
 
-// expectKnown applies the known findings K1A (REGION suffix), K1B (wrapped
-// organism), K1C (wrapped species) and K1D (toggle values) to a record: what
+// expectKnown applies the known finding K1A (REGION suffix) to a record: what
 // the reader is known to hand back.  ids lists the findings that changed
-// something.
+// something.  (K1B wrapped organism, K1C wrapped species and K1D toggle values
+// were repaired in /repo: 69bb3bf, 3d74d27, 2dd2956; nothing is attributed to
+// them any more.)
 func expectKnown(gb seqio.GenBank, reg registry) (seqio.GenBank, []string) {
 	ids := []string{}
 	f := gb.Fields
@@ -122,45 +123,7 @@ func expectKnown(gb seqio.GenBank, reg registry) (seqio.GenBank, []string) {
 		f.Region = nil
 		ids = append(ids, "K1A")
 	}
-	if w := wrapSpace67(f.Source.Name); w != f.Source.Name && !strings.Contains(f.Source.Name, "\n") {
-		lines := strings.Split(w, "\n")
-		tax := wrapSpace67(strings.Join(f.Source.Taxon, "; ") + ".")
-		all := append(lines[1:], strings.Split(tax, "\n")...)
-		b := strings.Builder{}
-		for _, l := range all {
-			if b.Len() > 0 {
-				b.WriteByte(' ')
-			}
-			b.WriteString(l)
-		}
-		f.Source.Name = lines[0]
-		f.Source.Taxon = seqio.FlatFileSplit(b.String())
-		ids = append(ids, "K1B")
-	}
-	if w := wrapSpace67(f.Source.Species); w != f.Source.Species && !strings.Contains(f.Source.Species, "\n") {
-		f.Source.Species = w
-		ids = append(ids, "K1C")
-	}
-	tab := make(gts.FeatureSlice, len(gb.Table))
-	toggled := false
-	for i, ft := range gb.Table {
-		ps := ft.Props.Clone()
-		for _, row := range ps {
-			if len(row) > 0 && qualifierType(row[0], reg) == seqio.ToggleQualifier {
-				for j := 1; j < len(row); j++ {
-					if row[j] != "\n" {
-						row[j] = "\n"
-						toggled = true
-					}
-				}
-			}
-		}
-		tab[i] = gts.Feature{Key: ft.Key, Loc: ft.Loc, Props: ps}
-	}
-	if toggled {
-		ids = append(ids, "K1D")
-	}
-	return seqio.GenBank{Fields: f, Table: tab, Origin: gb.Origin}, ids
+	return seqio.GenBank{Fields: f, Table: gb.Table, Origin: gb.Origin}, ids
 }
 
 // ---------------------------------------------------------------------------
@@ -320,7 +283,7 @@ func (c c01case) compare(r *Run, rline string, got seqio.GenBank, text string, q
 	if gt != wt {
 		et := tableKey(exp.Table, strict)
 		if gt == et {
-			attribute(Failure{Oracle: "read(write r) has the feature table of r", Op: rline, Got: gt, Want: wt}, only(ids, "K1D"))
+			attribute(Failure{Oracle: "read(write r) has the feature table of r", Op: rline, Got: gt, Want: wt}, nil)
 		} else {
 			attribute(Failure{Oracle: "read(write r) has the feature table of r", Op: rline, Got: gt, Want: wt}, nil)
 		}
@@ -330,7 +293,7 @@ func (c c01case) compare(r *Run, rline string, got seqio.GenBank, text string, q
 	if gf != wf {
 		ef := fieldsKey(exp.Fields)
 		if gf == ef {
-			attribute(Failure{Oracle: "read(write r) has the header fields of r", Op: rline, Got: gf, Want: wf}, without(ids, "K1D"))
+			attribute(Failure{Oracle: "read(write r) has the header fields of r", Op: rline, Got: gf, Want: wf}, ids)
 		} else {
 			attribute(Failure{Oracle: "read(write r) has the header fields of r", Op: rline, Got: gf, Want: wf}, nil)
 		}
@@ -350,12 +313,6 @@ func (c c01case) compare(r *Run, rline string, got seqio.GenBank, text string, q
 	if text2 != text {
 		f := Failure{Oracle: "write(read(write r)) = write r byte for byte", Op: rline, Got: encStr(text2), Want: encStr(text)}
 		idsUsed := []string(nil)
-		if has(ids, "K1B") {
-			// the wrapped organism moves into the taxonomy: predicted text
-			if t3, p3 := safeString(exp); !p3 && t3 == text2 {
-				idsUsed = []string{"K1B"}
-			}
-		}
 		attribute(f, idsUsed)
 	}
 }
@@ -579,12 +536,8 @@ func (g qualGen) props(r *rng, reg *registry) gts.Props {
 			name, mk = r.pick(c01LiteralNames), literalValue
 		case k < 7:
 			name = r.pick(c01ToggleNames)
-			mk = func(r *rng) string {
-				if g.allowFindings && r.intn(2) == 0 {
-					return r.pick([]string{"", "x", "true"})
-				}
-				return "\n"
-			}
+			// a toggle has no value (the writer writes none, the reader hands back "")
+			mk = func(r *rng) string { return "" }
 		default:
 			name = r.pick(c01UnknownNames)
 			mk = quotedValue
@@ -603,7 +556,7 @@ func (g qualGen) props(r *rng, reg *registry) gts.Props {
 			case seqio.LiteralQualifier:
 				mk = literalValue
 			case seqio.ToggleQualifier:
-				mk = func(*rng) string { return "\n" }
+				mk = func(*rng) string { return "" }
 			case seqio.UnknownQualifier:
 				if g.unk != nil {
 					g.unk[name] = true
@@ -711,8 +664,14 @@ func genFields(r *rng, rich bool) seqio.GenBankFields {
 		}
 	}
 	f.Keywords = listOf(r, 4)
-	f.Source.Species = fitsLine(r)
-	f.Source.Name = strings.TrimLeft(fitsLine(r), " ") // a leading blank breaks the sub-field indent
+	// SOURCE is written as it is (repo 3d74d27): any text without CR, long or multi-line;
+	// the organism name is written on one line (repo 69bb3bf): any length, no line feed
+	if r.intn(3) == 0 {
+		f.Source.Species = multiLine(r)
+	} else {
+		f.Source.Species = oneLine(r, true)
+	}
+	f.Source.Name = strings.TrimLeft(oneLine(r, true), " ") // a leading blank breaks the sub-field indent
 	f.Source.Taxon = listOf(r, 6)
 	for i, n := 0, r.intn(3); i < n; i++ {
 		f.References = append(f.References, genReference(r, i))
@@ -767,11 +726,7 @@ func genCaseReg(r *rng, findings bool, regp *registry) c01case {
 		case 0:
 			a := r.intn(50)
 			gb.Fields.Region = gts.Segment{a, a + r.rangeInt(1, 100)}
-		case 1:
-			gb.Fields.Source.Name = textOfLen(r, r.pick2([]int{68, 69, 100, 136, 140}))
-		case 2:
-			gb.Fields.Source.Species = textOfLen(r, r.pick2([]int{68, 69, 100, 136, 140}))
-		case 3:
+		case 1, 2, 3:
 			if len(gb.Table) > 0 {
 				ps := gb.Table[0].Props.Clone()
 				ps.Add("note", r.pick([]string{"a\"b", "\"", "x\\", "5\" end"}))
@@ -980,7 +935,7 @@ func inDomain(gb seqio.GenBank) bool {
 			return false
 		}
 	}
-	if !noLF(f.Source.Species) || !noLF(f.Source.Name) || strings.HasPrefix(f.Source.Name, " ") {
+	if !noCR(f.Source.Species) || !noLF(f.Source.Name) || strings.HasPrefix(f.Source.Name, " ") {
 		return false
 	}
 	for _, ref := range f.References {
@@ -1062,6 +1017,9 @@ func inDomain(gb seqio.GenBank) bool {
 						return false
 					}
 				case seqio.ToggleQualifier:
+					if v != "" { // a value the writer cannot represent
+						return false
+					}
 				default:
 					if strings.Contains(v, "\n                     ") {
 						return false
@@ -1433,7 +1391,7 @@ func staleUnknown(recs []seqio.GenBank, reg registry) bool {
 					}
 				case seqio.ToggleQualifier:
 					for _, v := range row[1:] {
-						if v != "\n" {
+						if v != "" {
 							return true
 						}
 					}
